@@ -16,10 +16,11 @@ type FS struct {
 	s     *Sim
 	files map[string]*fileNode
 	// fault configuration
-	Chunk      int            // bytes per write step (0: whole file)
-	ReadErr    map[string]error
-	WriteErr   map[string]error // returned before anything is written
-	NoSpaceAt  map[string]int // ENOSPC after this many bytes
+	Chunk     int           // bytes per write step (0: whole file)
+	ReadDelay time.Duration // simulated time a whole-file read takes (slow disk)
+	ReadErr   map[string]error
+	WriteErr  map[string]error // returned before anything is written
+	NoSpaceAt map[string]int   // ENOSPC after this many bytes
 	// history
 	Writes []WriteRec
 	Reads  []string
@@ -98,6 +99,18 @@ func ReadFile(path string) ([]byte, error) {
 		return os.ReadFile(path)
 	}
 	Yield(siteFS)
+	if f.ReadDelay > 0 {
+		// a slow disk: the read takes simulated time; it counts as a stall in
+		// progress, so nobody takes the start-up for finished meanwhile
+		f.s.mu.Lock()
+		f.s.stalling++
+		f.s.mu.Unlock()
+		time.Sleep(f.ReadDelay)
+		f.s.mu.Lock()
+		f.s.stalling--
+		f.s.mu.Unlock()
+		Yield(siteFS)
+	}
 	f.Reads = append(f.Reads, path)
 	if e, ok := f.ReadErr[path]; ok {
 		return nil, &fs.PathError{Op: "open", Path: path, Err: e}
